@@ -91,92 +91,82 @@ Proof. exact bin_bool_is_bool. Qed.
 Print Assumptions fold_operator_bool_assertion_safe.
 
 (* ---- the premise [reassoc_exact] cannot be dropped (D15).  Over IEEE binary64 (Coq's
-   primitive floats, evaluated by vm_compute: the statement depends on primitive float
-   evaluation, not on any axiom): (float(value) + 1.0) + 1.0 on the value 1e16 is 1e16, the
-   rewritten float(value) + 2 is 10000000000000002 -- and the premise is false there. *)
+   primitive floats: the statement depends on primitive float evaluation, not on any axiom):
+   (float(value) + 1.0) + 1.0 on the value 1e16 is 1e16, the rewritten float(value) + 2 is
+   10000000000000002 -- and the premise is false there.  [canon_res] is the content of an
+   evaluation result (None for an error). *)
 Theorem fold_float_reassoc_refuted :
   wt d15_expr = true /\
-  (exists x x',
-     eval prim_fops re_none "k" "1e16" d15_expr = Ok x /\
-     eval prim_fops re_none "k" "1e16" (fold prim_fops re_none pf_fmt_v d15_expr) = Ok x' /\
-     canon_of prim_fops x' <> canon_of prim_fops x) /\
+  (exists c c',
+     canon_res (eval prim_fops re_none "k" "1e16" d15_expr) = Some c /\
+     canon_res (eval prim_fops re_none "k" "1e16" (fold prim_fops re_none pf_fmt_v d15_expr)) = Some c' /\
+     c' <> c) /\
   ~ reassoc_exact prim_fops re_none pf_fmt_v d15_expr "k" "1e16".
 Proof. exact float_reassoc_refuted_lemma. Qed.
 Print Assumptions fold_float_reassoc_refuted.
 
+(* ---- the typing premise [wt] cannot be dropped either: (key + 1) + 2, which the checker
+   rejects (operands of + must be both text or both numbers), is "k12" on the key "k" and is
+   rewritten to key + 3 = "k3".  The property is about accepted expressions. *)
+Theorem fold_without_typing_refuted :
+  wt untyped_expr = false /\
+  fold prim_fops re_none pf_fmt_v untyped_expr = EBin 8 OAdd (EField 0 KeyKW) (ENum 6 "3") /\
+  canon_res (eval prim_fops re_none "k" "v" untyped_expr) = Some (CText "k12") /\
+  canon_res (eval prim_fops re_none "k" "v" (fold prim_fops re_none pf_fmt_v untyped_expr)) = Some (CText "k3").
+Proof. exact untyped_refuted_lemma. Qed.
+Print Assumptions fold_without_typing_refuted.
+
 (* ---- regression witness for D14 (fixed in /repo): re-wrapping by the kind of the left
-   literal, as the pinned code did, changes 3 * 0.5 = 1.5 into the integer 1 *)
+   literal, as the pinned code did, changes 3 * 0.5 = 1.5 into the integer literal 1 *)
 Theorem fold_rewrap_by_left_kind_refuted :
-  exists ret lit x',
+  exists ret lit,
     eval prim_fops re_none "" "" (EBin 2 OMul (ENum 0 "3") (EFloat 4 "0.5")) = Ok ret /\
     rewrap_by_left_kind prim_fops pf_fmt_v (ENum 0 "3") 0 ret = Some lit /\
-    eval prim_fops re_none "" "" lit = Ok x' /\
-    canon_of prim_fops x' <> canon_of prim_fops ret.
+    lit = ENum 0 "1" /\
+    canon_res (Ok ret) = Some (CFlt (pf_bits 1.5%float)) /\
+    canon_res (eval prim_fops re_none "" "" lit) = Some (CInt 1).
 Proof. exact rewrap_by_left_kind_refuted_lemma. Qed.
 Print Assumptions fold_rewrap_by_left_kind_refuted.
 
 (* ---- non-vacuity: the hypotheses of fold_preserves hold on concrete, non-trivial inputs
    and the conclusion computes to the expected trees and values *)
 
-(* (int(value) + 1) + 2  on the pair (a, 12): re-associated and folded to int(value) + 3 *)
-Definition ex_int : expr :=
-  EBin 15 OAdd (EBin 11 OAdd (ECall 0 (EName 0 "int") [EField 4 ValueKW]) (ENum 13 "1")) (ENum 17 "2").
-
+(* ex_int = (int(value) + 1) + 2  on the pair (a, 12): re-associated, folded to int(value) + 3 *)
 Example fold_preserves_nonvacuous_int :
   wt ex_int = true /\
   reassoc_exact prim_fops re_none pf_fmt_v ex_int "a" "12" /\
-  eval prim_fops re_none "a" "12" ex_int = Ok (VInt 15) /\
   fold prim_fops re_none pf_fmt_v ex_int =
     EBin 15 OAdd (ECall 0 (EName 0 "int") [EField 4 ValueKW]) (ENum 13 "3") /\
-  eval prim_fops re_none "a" "12" (fold prim_fops re_none pf_fmt_v ex_int) = Ok (VInt 15).
-Proof.
-  split; [reflexivity|]. split.
-  - split; vm_compute; repeat split;
-      intros X C1 C2 HX HC1 HC2 Hf;
-      injection HX as <-; injection HC1 as <-; injection HC2 as <-; discriminate Hf.
-  - repeat split; vm_compute; reflexivity.
-Qed.
+  canon_res (eval prim_fops re_none "a" "12" ex_int) = Some (CInt 15) /\
+  canon_res (eval prim_fops re_none "a" "12" (fold prim_fops re_none pf_fmt_v ex_int)) = Some (CInt 15).
+Proof. exact ex_int_lemma. Qed.
 
-(* (float(value) * 0.5) * 2.0  on the pair (b, 2.5): a float chain whose re-association is
-   exact; folded to float(value) * 1 *)
-Definition ex_flt : expr :=
-  EBin 21 OMul (EBin 13 OMul (ECall 0 (EName 0 "float") [EField 6 ValueKW]) (EFloat 15 "0.5")) (EFloat 23 "2.0").
-
+(* ex_flt = (float(value) * 0.5) * 2.0  on the pair (b, 2.5): a float chain whose
+   re-association is exact; folded to float(value) * 1 *)
 Example fold_preserves_nonvacuous_float :
   wt ex_flt = true /\
   reassoc_exact prim_fops re_none pf_fmt_v ex_flt "b" "2.5" /\
-  eval prim_fops re_none "b" "2.5" ex_flt = Ok (VFlt 2.5%float) /\
   fold prim_fops re_none pf_fmt_v ex_flt =
     EBin 21 OMul (ECall 0 (EName 0 "float") [EField 6 ValueKW]) (EFloat 15 "1") /\
-  eval prim_fops re_none "b" "2.5" (fold prim_fops re_none pf_fmt_v ex_flt) = Ok (VFlt 2.5%float).
-Proof.
-  split; [reflexivity|]. split.
-  - split; vm_compute; repeat split;
-      intros X C1 C2 HX HC1 HC2 Hf;
-      injection HX as <-; injection HC1 as <-; injection HC2 as <-; reflexivity.
-  - repeat split; vm_compute; reflexivity.
-Qed.
+  canon_res (eval prim_fops re_none "b" "2.5" ex_flt) = Some (CFlt (pf_bits 2.5%float)) /\
+  canon_res (eval prim_fops re_none "b" "2.5" (fold prim_fops re_none pf_fmt_v ex_flt)) =
+    Some (CFlt (pf_bits 2.5%float)).
+Proof. exact ex_flt_lemma. Qed.
 
-(* Boolean simplification: (1 < 2) & (key = 'a')  becomes  key = 'a';
-   (2 < 1) & (key = 'a')  becomes  false *)
-Definition ex_and (c : string) : expr :=
-  EBin 8 OAnd (EBin 3 OLt (ENum 1 c) (ENum 5 "2"))
-              (EBin 15 OEq (EField 11 KeyKW) (EStr 17 "a")).
-
+(* Boolean simplification: ex_and "1" = (1 < 2) & (key = 'a')  becomes  key = 'a';
+   ex_and "3" = (3 < 2) & (key = 'a')  becomes  false *)
 Example fold_preserves_nonvacuous_bool :
   wt (ex_and "1") = true /\
   reassoc_exact prim_fops re_none pf_fmt_v (ex_and "1") "a" "12" /\
   fold prim_fops re_none pf_fmt_v (ex_and "1") = EBin 15 OEq (EField 11 KeyKW) (EStr 17 "a") /\
   fold prim_fops re_none pf_fmt_v (ex_and "3") = EBool 1 false /\
-  eval prim_fops re_none "a" "12" (ex_and "1") = Ok (VBool true) /\
-  eval prim_fops re_none "a" "12" (fold prim_fops re_none pf_fmt_v (ex_and "1")) = Ok (VBool true).
-Proof.
-  split; [reflexivity|]. split.
-  - split; vm_compute; repeat split.
-  - repeat split; vm_compute; reflexivity.
-Qed.
+  canon_res (eval prim_fops re_none "a" "12" (ex_and "1")) = Some (CBool true) /\
+  canon_res (eval prim_fops re_none "a" "12" (fold prim_fops re_none pf_fmt_v (ex_and "1"))) = Some (CBool true) /\
+  canon_res (eval prim_fops re_none "a" "12" (ex_and "3")) = Some (CBool false) /\
+  canon_res (eval prim_fops re_none "a" "12" (fold prim_fops re_none pf_fmt_v (ex_and "3"))) = Some (CBool false).
+Proof. exact ex_and_lemma. Qed.
 
 (* the int-by-float product keeps its kind: 3 * 0.5 folds to the float literal 1.5 (D14) *)
 Example fold_int_by_float_stays_float :
   fold prim_fops re_none pf_fmt_v (EBin 2 OMul (ENum 0 "3") (EFloat 4 "0.5")) = EFloat 0 "1.5".
-Proof. vm_compute. reflexivity. Qed.
+Proof. exact ex_d14_lemma. Qed.
